@@ -47,23 +47,6 @@ def stmts_text(fn):
 
 
 EXPECT_MULTI = {
-    "__check_input__": [
-        "if values is None: return None",
-        "if not isinstance(values, tuple): raise ValueError(f'{name} should be a tuple of {kind} instances.')",
-        "if len(values) == 1: return [[deepcopy(values[0]) for _ in range(0, self._m_tasks)] for _ in range(0, self._n_algorithms)]",
-        "if len(values) == self._n_algorithms: return [[deepcopy(values[idx]) for _ in range(0, self._m_tasks)] for idx in range(0, self._n_algorithms)]",
-        "if len(values) == self._m_tasks: return [deepcopy(values) for _ in range(0, self._n_algorithms)]",
-        "if len(values) == self._n_algorithms * self._m_tasks: return [list(values[idx * self._m_tasks:(idx + 1) * self._m_tasks]) for idx in range(0, self._n_algorithms)]",
-        "raise ValueError(f'{name} should be list of {kind} instances with size (1) or (n) or (m) or (n*m), where n is #algorithms, m is #problems.')"],
-    "__check_modes__": [
-        "if self._modes is None: return",
-        "are_in_mode_solver = all([mode in ModeSolver for mode in list(chain.from_iterable(self._modes))])",
-        "if not are_in_mode_solver: raise ValueError(f'Invalid mode. Possible values are \"serial\", \"thread\" and \"process\"')"],
-    "__get_mode__": [
-        "mode = 'serial'",
-        "if self._modes is not None: mode = self._modes[id_optimizer][id_prob]",
-        "try: mode = ModeSolver(mode) except ValueError: raise ValueError('Invalid mode. Possible values are \"serial\", \"thread\" and \"process\"')",
-        "return mode"],
     "__run__": [
         "result = optimizer.optimize(task, mode=str(mode), workers=self._n_workers)",
         "return {'id_trial': id_trial, 'solution': result, 'problem_name': task.name}"],
